@@ -39,7 +39,12 @@ def _mods():
             importlib.import_module("uberjob.progress._progress_observer"))
 
 
-@unit("progress.composite", props=["C15"], functions=[("progress/_composite_progress_observer.py", "CompositeProgressObserver.increment_running")],
+_CP = "progress/_composite_progress_observer.py"
+
+
+@unit("progress.composite", props=["C15"], functions=[(_CP, "CompositeProgressObserver.__init__"), (_CP, "CompositeProgressObserver.__enter__"), (_CP, "CompositeProgressObserver.__exit__"),
+                                                      (_CP, "CompositeProgressObserver.increment_total"), (_CP, "CompositeProgressObserver.increment_running"),
+                                                      (_CP, "CompositeProgressObserver.increment_completed"), (_CP, "CompositeProgressObserver.increment_failed")],
       assumptions=["contextlib.ExitStack as documented", "parametric in the members: run natively with 0..3 members"], min_obligations=4, kind="concrete-parametric")
 def composite_unit(ctx):
     simple, comp, po = _mods()
